@@ -322,6 +322,16 @@ class C13(RebuildProp):
             c["extra_keys"] = False
             c["trailing_pad"] = k % 4 == 1
             out.append(c)
+        # files with long runs of zero bytes (disk images, preallocated files) at their end / start / middle, sizes on
+        # 64 KiB multiples: what is written must still be the whole file
+        K = 65536
+        for v in (1, 2, 3):
+            for mode in ("ztail", "zhead", "zmid", "zeros", "sparse"):
+                for sh, sizes in (("D2", (3 * K, 2 * K)), ("S1", (4 * K,)), ("D2", (K, 5 * K + 7))):
+                    c = self.scen(rng, (B, 4 * B)[v % 2], v, (sh, sizes), lambda fi, f: [self.cand(rng, "intact")], nsearch=1)
+                    for f in c["tree"]["files"]:
+                        f["mode"] = mode
+                    out.append(c)
         # the model-checked universe of FindMatches replayed into the real rebuild (piece length 2)
         out += rebuild_universe(self.clauses, rng, None if tier == "thorough" else 1200)
         # systematic: files ending exactly on a boundary, empty files in every position
@@ -452,6 +462,16 @@ class C14(RebuildProp):
                               lambda fi, f, missing=missing: [self.cand(rng, "intact", search=0)] if (fi == 0) == (missing == 0) else [],
                               lambda fi, f, missing=missing: "absent" if (fi == 0) == (missing == 0) else "correct", nsearch=1)
                 out.append(c)
+        # files with long runs of zero bytes (disk images, preallocated files) at their end / start / middle, sizes on
+        # 64 KiB multiples: what is written must still be the whole file
+        K = 65536
+        for v in (1, 2, 3):
+            for mode in ("ztail", "zhead", "zmid", "zeros", "sparse"):
+                for sh, sizes in (("D2", (3 * K, 2 * K)), ("S1", (4 * K,)), ("D2", (K, 5 * K + 7))):
+                    c = self.scen(rng, (B, 4 * B)[v % 2], v, (sh, sizes), lambda fi, f: [self.cand(rng, "intact")], nsearch=1)
+                    for f in c["tree"]["files"]:
+                        f["mode"] = mode
+                    out.append(c)
         for v in (1, 2, 3):           # only dead decoys: nothing may be placed
             for sizes in ((B + 1, 2 * B), (5, 3 * B), (2 * B, 2 * B)):
                 out.append(self.scen(rng, B, v, ("D2", sizes), lambda fi, f: [self.cand(rng, "decoy_all")], nsearch=1))
